@@ -758,193 +758,204 @@ def run_case(case: dict) -> Tuple[List[str], List[str], List[str], Dict[str, int
                 n.user_session_manager.remote_session_timeout_steps = tmo
 
         for k, op in enumerate(case["ops"]):
-            nb = len(probe.bad_frames)
-            kind = op["op"]
-            if kind == "tick":
-                before = [n.operating_state for n in nodes]
-                clocks = [_clocks(n) for n in nodes]
-                sim.pre_timestep(t)
-                if tmo:   # the reference: a session idle for `tmo` steps ends at this pre_timestep, whatever the node's power state
-                    for i, n in enumerate(nodes):
-                        ref = sess_ref[i]
-                        sess_now[i] = t
-                        was = (ref["local"] is not None, len(ref["remote"]))
-                        if ref["local"] is not None and ref["local"] + tmo <= t:
-                            ref["local"] = None
-                        ref["remote"] = [x for x in ref["remote"] if not (x + tmo <= t)]
-                        usm = n.user_session_manager
-                        seen = (usm.local_session is not None, len(usm.remote_sessions))
-                        want = (ref["local"] is not None, len(ref["remote"]))
-                        if seen != want:
-                            oracle.append(f"session-timeout-differs-from-power-blind-reference|{cls_of[i]}|tick {t} {n.operating_state.name}: "
-                                          f"(local, #remote) seen {seen} expected {want}")
-                        if want != was:
-                            probe.frame_events[f"session-timed-out:{'ON' if before[i] == NodeOperatingState.ON else 'not-ON'}"] = \
-                                probe.frame_events.get(f"session-timed-out:{'ON' if before[i] == NodeOperatingState.ON else 'not-ON'}", 0) + 1
-                sim.apply_timestep(t)
-                t += 1
-                tr = traces()
-                wk = work()
-                for i, n in enumerate(nodes):
-                    lines.append(f"tick {i}")
-                    impl.append(f"done h={tr.get(i, '-')} w={wk.get(i, '')} {snapshot(n)}")
-                    # oracle (independent of the model): a node that is not ON before and after the tick moved no software clock
-                    if before[i] != NodeOperatingState.ON and n.operating_state != NodeOperatingState.ON and _clocks(n) != clocks[i]:
-                        oracle.append(f"software-clock-moved-while-not-on|{cls_of[i]}|{clocks[i]} -> {_clocks(n)} in tick {k}")
-                    if n.operating_state != NodeOperatingState.ON and any(x in wk.get(i, "") for x in ("ts", "ta", "tf")):
-                        oracle.append(f"software-ticked-while-not-on|{cls_of[i]}|{wk.get(i)} in tick {k}")
-            elif kind == "req":
-                i = op["node"]
-                n = nodes[i]
-                key = op["key"]
-                was_on = n.operating_state == NodeOperatingState.ON
-                if key in ("shutdown", "startup", "reset"):
-                    path, sub = [key], "opaque success"
-                elif key == "service":
-                    path, sub = [key, op["svc"], op["verb"]], f"svc {_svc_index(n, op['svc'])} {op['verb']}"
-                elif key == "application":
-                    path, sub = [key, op["app"], "close"], f"app {_app_index(n, op['app'])}"
-                elif key == "network_interface":
-                    path, sub = [key, op["nic"], op["verb"]], f"nic {op['nic'] - 1} {op['verb']}"
-                elif key == "os" and op.get("path") == ["scan"]:
-                    path, sub = [key, "scan"], "osscan"
-                else:
-                    path, sub = [key, *op["path"]], f"opaque {op['expect']}"
-                try:
-                    resp = sim.apply_request(["network", "node", n.config.hostname, *path], {})
-                    status = resp.status
-                except Exception as e:  # a request must answer, not raise
-                    status = f"raised:{type(e).__name__}"
-                    oracle.append(f"request-raised|{cls_of[i]}|{key} {type(e).__name__}: {e}")
-                if not was_on and key != "startup" and status not in ("failure", "unreachable"):
-                    oracle.append(f"request-accepted-while-not-on|{cls_of[i]}|{key} -> {status}")
-                tr = traces()
-                lines.append(f"req {i} {key} {sub}")
-                impl.append(f"{status} h={tr.get(i, '-')} {snapshot(n)}")
-                for j, m in enumerate(nodes):  # nothing may happen to the other nodes' power state
-                    if j != i and j in tr:
-                        oracle.append(f"foreign-state-change|{cls_of[j]}|{tr[j]} during request to node {i}")
-            elif kind == "ping":
-                src, dst = nodes[op["src"]], nodes[op["dst"]]
-                dst_ip = dst.network_interface[1].ip_address
-                dst_on = dst.operating_state == NodeOperatingState.ON
-                src_on = src.operating_state == NodeOperatingState.ON
-                # ICMPPacket treats identifier 0 as "unset" and draws a new one (protocols/icmp.py), so one ping in 65536 loses its
-                # reply although both nodes are up (not a C12 matter; noted for C08). A ping has no effect on the modelled state,
-                # so a failed ping is tried once more; a power-gating failure is deterministic and fails both times.
-                ok = bool(src.ping(dst_ip, pings=1)) or bool(src.ping(dst_ip, pings=1))
-                if ok and not (dst_on and src_on):
-                    oracle.append(f"ping-succeeded-with-node-not-on|{cls_of[op['dst']]}|src_on={src_on} dst_on={dst_on}")
-                lines.append(f"ping {op['src']} {op['dst']}")
-                impl.append("1" if ok else "0")
-                traces()
-            elif kind == "pingpath":  # a ping to / through the node under test; every interface it must cross is named
-                src_i, ip, hops = case["pings"][op["name"]]
-                src = nodes[src_i]
-                on_path = sorted({src_i} | {h[0] for h in hops})
-                all_on = all(nodes[j].operating_state == NodeOperatingState.ON for j in on_path)
-                ok = bool(src.ping(ip, pings=1)) or bool(src.ping(ip, pings=1))
-                if ok and not all_on:
-                    off = [f"{cls_of[j]}:{nodes[j].operating_state.name}" for j in on_path if nodes[j].operating_state != NodeOperatingState.ON]
-                    oracle.append(f"ping-succeeded-with-node-not-on|{cls_of[0]}|{op['name']} crossed {off}")
-                lines.append(f"pingpath {src_i} " + " ".join(f"{a}:{b}" for a, b in hops))
-                impl.append("1" if ok else "0")
-                traces()
-            elif kind == "login":   # straight at the user session manager (the `logon` request is a stub that always fails)
-                i = op["node"]
-                n = nodes[i]
-                usm = n.user_session_manager
-                on = n.operating_state == NodeOperatingState.ON
-                if op.get("remote"):
-                    peer_ip = nodes[1 - i].network_interface[1].ip_address
-                    had = len(usm.remote_sessions)
-                    sid = usm.remote_login("admin", "admin", peer_ip)
-                    if sid and len(usm.remote_sessions) > had:
-                        sess_ref[i]["remote"].append(sess_now[i])
-                else:
-                    fresh = usm.local_session is None
-                    sid = usm.local_login("admin", "admin")
-                    if sid and fresh:
-                        sess_ref[i]["local"] = sess_now[i]
-                if sid and not on:
-                    oracle.append(f"login-succeeded-while-not-on|{cls_of[i]}|{n.operating_state.name}")
-                probe.frame_events[f"login:{'ON' if on else 'not-ON'}:{'ok' if sid else 'refused'}"] = \
-                    probe.frame_events.get(f"login:{'ON' if on else 'not-ON'}:{'ok' if sid else 'refused'}", 0) + 1
-                traces()
-            elif kind == "traffic":  # scenario scale: ping an address somewhere in the network; only the oracles look at it
-                try:
-                    nodes[op["src"]].ping(op["dst"], pings=1)
-                except Exception as e:
-                    oracle.append(f"traffic-raised|{cls_of[op['src']]}|{type(e).__name__}: {e}")
-                traces()
-            elif kind == "inject":  # hand a frame straight to an interface
-                n = nodes[op["node"]]
-                ni = n.network_interface.get(op["nic"])
-                if ni is not None:
-                    ok = _inject(ni)
-                    lines.append(f"in {op['node']} {op['nic'] - 1}")
-                    impl.append("1" if ok else "0")
-                traces()
-            elif kind == "appinstall":   # kept for the stored corpus: `Application.install()` through the Python API
-                n = nodes[op["node"]]
-                j = _app_index(n, op["app"])
-                if j != 99:
-                    list(n.applications.values())[j].install()
-                    lines.append(f"api {op['node']} appinstall {j}")
-                    impl.append(f"done h=- {snapshot(n)}")
-            elif kind == "api":  # the Python API, no request and no validator in front of it
-                i = op["node"]
-                n = nodes[i]
-                call = op["call"]
-                line = None
-                if call == "poweron":
-                    n.power_on(); line = "poweron"
-                elif call == "poweroff":
-                    n.power_off(); line = "poweroff"
-                elif call == "reset":
-                    n.reset(); line = "reset"
-                elif call in ("nicenable", "nicdisable"):
-                    ni = n.network_interface.get(op["nic"])
-                    if ni is not None:
-                        (ni.enable if call == "nicenable" else ni.disable)()
-                        line = f"{call} {op['nic'] - 1}"
-                elif call == "svc":
-                    j = _svc_index(n, op["svc"])
-                    if j != 99:
-                        getattr(list(n.services.values())[j], op["verb"])()
-                        line = f"svc {j} {op['verb']}"
-                elif call in ("apprun", "appclose", "appinstall"):
-                    j = _app_index(n, op["app"])
-                    if j != 99:
-                        getattr(list(n.applications.values())[j], {"apprun": "run", "appclose": "close", "appinstall": "install"}[call])()
-                        line = f"{call} {j}"
-                else:
-                    raise ValueError(call)
-                tr = traces()
-                if line is not None:
-                    lines.append(f"api {i} {line}")
-                    impl.append(f"done h={tr.get(i, '-')} {snapshot(n)}")
-            elif kind == "setdur":   # the configured durations are plain mutable attributes of node.config
-                i = op["node"]
-                n = nodes[i]
-                n.config.start_up_duration = op["up"]
-                n.config.shut_down_duration = op["down"]
-                lines.append(f"setdur {i} {op['up']} {op['down']}")
-                impl.append(f"done h=- {snapshot(n)}")
-            elif kind == "setup":    # what PrimaiteGymEnv.reset() does after from_config
-                if game is not None:
-                    game.setup_for_episode(episode=1)
-                else:
-                    sim.setup_for_episode(episode=1)
-                tr = traces()
-                for i, n in enumerate(nodes):
-                    lines.append(f"setup {i}")
-                    impl.append(f"done h={_dedup(tr.get(i, '-'))} {snapshot(n)}")
-            else:
-                raise ValueError(kind)
-            for b in probe.bad_frames[nb:]:
-                oracle.append(f"frame-passed-interface-of-node-not-on|{b.split(' on ')[0]}|{b} during op {k} {op}")
-            invariants(f"op {k} {op}")
+          nb = len(probe.bad_frames)
+          kind = op["op"]
+          try:
+              if kind == "tick":
+                  before = [n.operating_state for n in nodes]
+                  clocks = [_clocks(n) for n in nodes]
+                  sim.pre_timestep(t)
+                  if tmo:   # the reference: a session idle for `tmo` steps ends at this pre_timestep, whatever the node's power state
+                      for i, n in enumerate(nodes):
+                          ref = sess_ref[i]
+                          sess_now[i] = t
+                          was = (ref["local"] is not None, len(ref["remote"]))
+                          if ref["local"] is not None and ref["local"] + tmo <= t:
+                              ref["local"] = None
+                          ref["remote"] = [x for x in ref["remote"] if not (x + tmo <= t)]
+                          usm = n.user_session_manager
+                          seen = (usm.local_session is not None, len(usm.remote_sessions))
+                          want = (ref["local"] is not None, len(ref["remote"]))
+                          if seen != want:
+                              oracle.append(f"session-timeout-differs-from-power-blind-reference|{cls_of[i]}|tick {t} {n.operating_state.name}: "
+                                            f"(local, #remote) seen {seen} expected {want}")
+                          if want != was:
+                              probe.frame_events[f"session-timed-out:{'ON' if before[i] == NodeOperatingState.ON else 'not-ON'}"] = \
+                                  probe.frame_events.get(f"session-timed-out:{'ON' if before[i] == NodeOperatingState.ON else 'not-ON'}", 0) + 1
+                  sim.apply_timestep(t)
+                  t += 1
+                  tr = traces()
+                  wk = work()
+                  for i, n in enumerate(nodes):
+                      lines.append(f"tick {i}")
+                      impl.append(f"done h={tr.get(i, '-')} w={wk.get(i, '')} {snapshot(n)}")
+                      # oracle (independent of the model): a node that is not ON before and after the tick moved no software clock
+                      if before[i] != NodeOperatingState.ON and n.operating_state != NodeOperatingState.ON and _clocks(n) != clocks[i]:
+                          oracle.append(f"software-clock-moved-while-not-on|{cls_of[i]}|{clocks[i]} -> {_clocks(n)} in tick {k}")
+                      if n.operating_state != NodeOperatingState.ON and any(x in wk.get(i, "") for x in ("ts", "ta", "tf")):
+                          oracle.append(f"software-ticked-while-not-on|{cls_of[i]}|{wk.get(i)} in tick {k}")
+              elif kind == "req":
+                  i = op["node"]
+                  n = nodes[i]
+                  key = op["key"]
+                  was_on = n.operating_state == NodeOperatingState.ON
+                  if key in ("shutdown", "startup", "reset"):
+                      path, sub = [key], "opaque success"
+                  elif key == "service":
+                      path, sub = [key, op["svc"], op["verb"]], f"svc {_svc_index(n, op['svc'])} {op['verb']}"
+                  elif key == "application":
+                      path, sub = [key, op["app"], "close"], f"app {_app_index(n, op['app'])}"
+                  elif key == "network_interface":
+                      path, sub = [key, op["nic"], op["verb"]], f"nic {op['nic'] - 1} {op['verb']}"
+                  elif key == "os" and op.get("path") == ["scan"]:
+                      path, sub = [key, "scan"], "osscan"
+                  else:
+                      path, sub = [key, *op["path"]], f"opaque {op['expect']}"
+                  try:
+                      resp = sim.apply_request(["network", "node", n.config.hostname, *path], {})
+                      status = resp.status
+                  except Exception as e:  # a request must answer, not raise
+                      status = f"raised:{type(e).__name__}"
+                      oracle.append(f"request-raised|{cls_of[i]}|{key} {type(e).__name__}: {e}")
+                  if not was_on and key != "startup" and status not in ("failure", "unreachable"):
+                      oracle.append(f"request-accepted-while-not-on|{cls_of[i]}|{key} -> {status}")
+                  tr = traces()
+                  lines.append(f"req {i} {key} {sub}")
+                  impl.append(f"{status} h={tr.get(i, '-')} {snapshot(n)}")
+                  for j, m in enumerate(nodes):  # nothing may happen to the other nodes' power state
+                      if j != i and j in tr:
+                          oracle.append(f"foreign-state-change|{cls_of[j]}|{tr[j]} during request to node {i}")
+              elif kind == "ping":
+                  src, dst = nodes[op["src"]], nodes[op["dst"]]
+                  dst_ip = dst.network_interface[1].ip_address
+                  dst_on = dst.operating_state == NodeOperatingState.ON
+                  src_on = src.operating_state == NodeOperatingState.ON
+                  # ICMPPacket treats identifier 0 as "unset" and draws a new one (protocols/icmp.py), so one ping in 65536 loses its
+                  # reply although both nodes are up (not a C12 matter; noted for C08). A ping has no effect on the modelled state,
+                  # so a failed ping is tried once more; a power-gating failure is deterministic and fails both times.
+                  ok = bool(src.ping(dst_ip, pings=1)) or bool(src.ping(dst_ip, pings=1))
+                  if ok and not (dst_on and src_on):
+                      oracle.append(f"ping-succeeded-with-node-not-on|{cls_of[op['dst']]}|src_on={src_on} dst_on={dst_on}")
+                  lines.append(f"ping {op['src']} {op['dst']}")
+                  impl.append("1" if ok else "0")
+                  traces()
+              elif kind == "pingpath":  # a ping to / through the node under test; every interface it must cross is named
+                  src_i, ip, hops = case["pings"][op["name"]]
+                  src = nodes[src_i]
+                  on_path = sorted({src_i} | {h[0] for h in hops})
+                  all_on = all(nodes[j].operating_state == NodeOperatingState.ON for j in on_path)
+                  ok = bool(src.ping(ip, pings=1)) or bool(src.ping(ip, pings=1))
+                  if ok and not all_on:
+                      off = [f"{cls_of[j]}:{nodes[j].operating_state.name}" for j in on_path if nodes[j].operating_state != NodeOperatingState.ON]
+                      oracle.append(f"ping-succeeded-with-node-not-on|{cls_of[0]}|{op['name']} crossed {off}")
+                  lines.append(f"pingpath {src_i} " + " ".join(f"{a}:{b}" for a, b in hops))
+                  impl.append("1" if ok else "0")
+                  traces()
+              elif kind == "login":   # straight at the user session manager (the `logon` request is a stub that always fails)
+                  i = op["node"]
+                  n = nodes[i]
+                  usm = n.user_session_manager
+                  on = n.operating_state == NodeOperatingState.ON
+                  if op.get("remote"):
+                      peer_ip = nodes[1 - i].network_interface[1].ip_address
+                      had = len(usm.remote_sessions)
+                      sid = usm.remote_login("admin", "admin", peer_ip)
+                      if sid and len(usm.remote_sessions) > had:
+                          sess_ref[i]["remote"].append(sess_now[i])
+                  else:
+                      fresh = usm.local_session is None
+                      sid = usm.local_login("admin", "admin")
+                      if sid and fresh:
+                          sess_ref[i]["local"] = sess_now[i]
+                  if sid and not on:
+                      oracle.append(f"login-succeeded-while-not-on|{cls_of[i]}|{n.operating_state.name}")
+                  probe.frame_events[f"login:{'ON' if on else 'not-ON'}:{'ok' if sid else 'refused'}"] = \
+                      probe.frame_events.get(f"login:{'ON' if on else 'not-ON'}:{'ok' if sid else 'refused'}", 0) + 1
+                  traces()
+              elif kind == "traffic":  # scenario scale: ping an address somewhere in the network; only the oracles look at it
+                  try:
+                      nodes[op["src"]].ping(op["dst"], pings=1)
+                  except Exception as e:
+                      oracle.append(f"traffic-raised|{cls_of[op['src']]}|{type(e).__name__}: {e}")
+                  traces()
+              elif kind == "inject":  # hand a frame straight to an interface
+                  n = nodes[op["node"]]
+                  ni = n.network_interface.get(op["nic"])
+                  if ni is not None:
+                      ok = _inject(ni)
+                      lines.append(f"in {op['node']} {op['nic'] - 1}")
+                      impl.append("1" if ok else "0")
+                  traces()
+              elif kind == "appinstall":   # kept for the stored corpus: `Application.install()` through the Python API
+                  n = nodes[op["node"]]
+                  j = _app_index(n, op["app"])
+                  if j != 99:
+                      list(n.applications.values())[j].install()
+                      lines.append(f"api {op['node']} appinstall {j}")
+                      impl.append(f"done h=- {snapshot(n)}")
+              elif kind == "api":  # the Python API, no request and no validator in front of it
+                  i = op["node"]
+                  n = nodes[i]
+                  call = op["call"]
+                  line = None
+                  if call == "poweron":
+                      n.power_on(); line = "poweron"
+                  elif call == "poweroff":
+                      n.power_off(); line = "poweroff"
+                  elif call == "reset":
+                      n.reset(); line = "reset"
+                  elif call in ("nicenable", "nicdisable"):
+                      ni = n.network_interface.get(op["nic"])
+                      if ni is not None:
+                          (ni.enable if call == "nicenable" else ni.disable)()
+                          line = f"{call} {op['nic'] - 1}"
+                  elif call == "svc":
+                      j = _svc_index(n, op["svc"])
+                      if j != 99:
+                          getattr(list(n.services.values())[j], op["verb"])()
+                          line = f"svc {j} {op['verb']}"
+                  elif call in ("apprun", "appclose", "appinstall"):
+                      j = _app_index(n, op["app"])
+                      if j != 99:
+                          getattr(list(n.applications.values())[j], {"apprun": "run", "appclose": "close", "appinstall": "install"}[call])()
+                          line = f"{call} {j}"
+                  else:
+                      raise ValueError(call)
+                  tr = traces()
+                  if line is not None:
+                      lines.append(f"api {i} {line}")
+                      impl.append(f"done h={tr.get(i, '-')} {snapshot(n)}")
+              elif kind == "setdur":   # the configured durations are plain mutable attributes of node.config
+                  i = op["node"]
+                  n = nodes[i]
+                  n.config.start_up_duration = op["up"]
+                  n.config.shut_down_duration = op["down"]
+                  lines.append(f"setdur {i} {op['up']} {op['down']}")
+                  impl.append(f"done h=- {snapshot(n)}")
+              elif kind == "setup":    # what PrimaiteGymEnv.reset() does after from_config
+                  if game is not None:
+                      game.setup_for_episode(episode=1)
+                  else:
+                      sim.setup_for_episode(episode=1)
+                  tr = traces()
+                  for i, n in enumerate(nodes):
+                      lines.append(f"setup {i}")
+                      impl.append(f"done h={_dedup(tr.get(i, '-'))} {snapshot(n)}")
+              else:
+                  raise ValueError(kind)
+          except Exception as e:
+            # an operation of the IMPLEMENTATION raised (innermost frame under src/primaite): a finding, not a machinery error;
+            # the case stops here because the objects may be half-updated
+            import traceback
+            tb = traceback.extract_tb(e.__traceback__)
+            if not tb or "/src/primaite/" not in tb[-1].filename:
+                raise
+            where = f"{tb[-1].filename.split('/src/primaite/')[-1]}:{tb[-1].name}"
+            oracle.append(f"operation-raised|{cls_of[op.get('node', 0)] if isinstance(op.get('node', 0), int) else '?'}|{kind} {type(e).__name__}: {e} in {where}")
+            break
+          for b in probe.bad_frames[nb:]:
+              oracle.append(f"frame-passed-interface-of-node-not-on|{b.split(' on ')[0]}|{b} during op {k} {op}")
+          invariants(f"op {k} {op}")
         return lines, impl, oracle, dict(probe.frame_events)
     finally:
         probe.remove()
